@@ -21,16 +21,16 @@ CHECKS = {
          "The full flag product (enum flag x 4 variant flag forms per variant) is enumerated for N=2..3 and every case flip / look-alike / one-edit neighbour of every spelling is parsed; results equal the reference that folds only ASCII letters and only for covered variants.",
          "trusted: rustc, derived Debug, vf-core R-match", "DESIGN.md §4 C12"),
  "C16": ("bounded-exhaustive enumeration of twin programs (plain vs use_phf, compiled in one module) x the C01 input closure; differential + reference oracle; compile acceptance attributed per program",
-         "Every field-less enum of the bounded space is built twice, plain and with use_phf; a compile diagnostic is a violation, and for every input of the closure both parsers and the reference agree.",
+         "Every field-less enum of the bounded space (spellings may overlap between variants) is built twice, plain and with use_phf, also inside a scope that re-binds Ok/Err/Some/None; a compile diagnostic is a violation, and for every input of the closure both parsers agree (and agree with the reference wherever an input is matched by at most one variant).",
          "trusted: rustc, phf 0.11, derived Debug, vf-core R-parse", "DESIGN.md §4 C16"),
  "C18": ("bounded-exhaustive program-space x input-space enumeration with a call-counting error function, on compiled derive output vs reference parser",
          "For every enum of the bounded space built with and without parse_err_ty/parse_err_fn, every input of the closure is parsed; rejected inputs must return f(original input) with exactly one call of f, accepted inputs zero calls; the associated error types are checked at compile time.",
          "trusted: rustc, derived Debug, the counting function vf_core::my_err, vf-core R-parse", "DESIGN.md §4 C18"),
  "C20": ("bounded-exhaustive enumeration of malformed derive inputs (rule x consuming derive x variant kind x position x repetition form) compiled by rustc; per-item diagnostic attribution with iterated passes; one-bit observation (located error / panic / clean)",
-         "Every rejection rule of the statement is instantiated on every derive that consumes the construct, in every listed shape/position/form; each item must receive a located compile error, must not make the derive panic and must not compile cleanly; valid controls must stay diagnostic-free. The observation per program is rustc's verdict, so the enumeration is of the program space only.",
+         "Every rejection rule of the statement is instantiated on every derive that consumes the construct (repeated attributes and unknown styles on every derive that reads the attributes), in every listed shape/position/form plus rare forms and malformed attribute values; each item must receive a located compile error, must not make the derive panic and must not compile cleanly; valid controls must stay diagnostic-free. The observation per program is rustc's verdict, so the enumeration is of the program space only.",
          "trusted: rustc JSON diagnostics and spans, the applicability table (derive docs); an error anywhere inside the item counts as located at the item", "DESIGN.md §4 C20"),
- "C19": ("bounded-exhaustive program-space enumeration (<=k deviations, every admissible non-deprecated derive on each enum) compiled under three configurations (no_std/no alloc, renamed strum path, shadowed core/std); per-program diagnostic attribution; one-bit observation",
-         "Every enum of the bounded space carries all derives it admits and is type-checked by rustc in a #![no_std] crate without alloc, in a crate where strum is only reachable under another path, and next to local modules named core/std; any diagnostic is attributed to its program. The observation per (program, configuration) is rustc's accept/reject, so what is enumerated is the program/configuration space.",
+ "C19": ("bounded-exhaustive program-space enumeration (<=k deviations, every admissible non-deprecated derive on each enum) compiled under three configurations (no_std/no alloc, renamed strum path, shadowed core/std/strum; solo derives); per-program diagnostic attribution; one-bit observation",
+         "Every enum of the bounded space carries all derives it admits and is type-checked by rustc in a #![no_std] crate without alloc, in a crate where strum is only reachable under another path, and next to local modules named core, std and strum; every derive is also used alone on an enum that carries strum attributes; any diagnostic is attributed to its program. The observation per (program, configuration) is rustc's accept/reject, so what is enumerated is the program/configuration space.",
          "trusted: rustc name resolution and type checking, the admissible-derive table; check-only build", "DESIGN.md §4 C19"),
  "C02": ("bounded-exhaustive program-space enumeration (<=k deviations incl. all 16 style strings) on compiled derive output; every printed form and every get_serializations entry parsed back; membership + round-trip oracle",
          "For every enum of the bounded space and every enabled variant, each string produced by Display/AsRefStr/IntoStaticStr and each element of get_serializations is parsed back with the real parser and must yield the same variant with default payloads; each printed string must also be a member of the reference spelling list, so a wrong name cannot cancel out on both sides.",
